@@ -1,6 +1,7 @@
 SPECIFICATION Spec
 CONSTANTS
-  Alphabet = {"doctype", "cdo", "cdc", "lt", "gt", "lb", "rb", "dq", "sq", "x", "nul"}
+  Prefixes = {"doctype"}
+  Alphabet = {"cdo", "cdc", "lt", "gt", "lb", "rb", "dq", "sq", "x", "nul"}
   MaxLen = 5
   Emit = TRUE
   VoidClosesTag = TRUE
